@@ -97,6 +97,9 @@ def run_case(case, rng):
             R = np.array([[[float(rng.randint(-5, 5))] for _ in range(nA)] for _ in range(nS)])
         else:
             R = np.array([[[float(rng.randint(-5, 5)) for _ in range(nS)]] for _ in range(nS)])
+        if rng.random() < 0.2:
+            # a large constant added to every reward: values shift by c/(1-gamma), the policy must not move at all
+            R = R + rng.choice([1e3, 1e5, -1e5])
         gamma = rng.choice([0.3, 0.9, 0.99])
         w = rng.choice([2.0 ** -10, 2.0 ** -7, 0.05, 0.1, 1.0, 1.0, 10.0])
         per_state = rng.random() < 0.3
